@@ -419,15 +419,21 @@ class RecCase(object):
             return ('clone-deep-continue',)
         if op == 'read':
             which = rng.choice(['get-name', 'get-pos', 'get-item', 'gcn-false', 'gcn-true-present', 'values', 'items',
-                                'pretty', 'repr', 'eq', 'len', 'get-absent-false'])
+                                'pretty', 'repr', 'eq', 'len', 'get-absent-false', 'get-type'])
             if D is None and which not in ('pretty', 'repr', 'gcn-false', 'get-absent-false'):
                 return ('noop',)
             present = [n_ for n_ in NAMES if D and n_ in D]
-            if which in ('get-name', 'get-pos', 'get-item', 'gcn-true-present'):
+            if which == 'get-type' and self.kind != 'set':
+                which = 'get-name'
+            if which in ('get-name', 'get-pos', 'get-item', 'gcn-true-present', 'get-type'):
                 if not present:
                     return ('noop',)
                 n_ = rng.choice(present)
-                if which == 'get-name':
+                if which == 'get-type':
+                    # tag-addressed read (SET only)
+                    ts = self.obj.componentType[n_].asn1Object.tagSet
+                    c = self.obj.getComponentByType(ts, instantiate=rng.random() < 0.5)
+                elif which == 'get-name':
                     c = self.obj.getComponentByName(n_)
                 elif which == 'get-pos':
                     c = self.obj.getComponentByPosition(NAMES.index(n_))
